@@ -599,13 +599,17 @@ func TestC03_QuaiCache(t *testing.T) {
 			if len(perChain) > 0 && c.Cmp(txChain) != 0 {
 				crossChain = true
 			}
-			switch rapid.SampledFrom([]string{"sender", "sender", "sender", "hash", "hashloc", "asmessage", "from"}).Draw(t, "op") {
+			switch rapid.SampledFrom([]string{"sender", "sender", "sender", "hash", "hashloc", "asmessage", "asmessage-block", "from"}).Draw(t, "op") {
 			case "sender":
 				got, err := types.Sender(types.NewSigner(c, loc), tx)
 				check("Sender", c, loc, got, err)
 			case "asmessage":
 				msg, err := tx.AsMessage(types.NewSigner(c, loc), big.NewInt(1))
 				check("AsMessage", c, loc, msg.From(), err)
+			case "asmessage-block":
+				// what block processing calls for a transaction the pool's sender cache does not know
+				msg, err := tx.AsMessageWithSender(types.NewSigner(c, loc), big.NewInt(1), nil)
+				check("AsMessageWithSender(nil)", c, loc, msg.From(), err)
 			case "hash":
 				tx.Hash()
 				afterHash = true
